@@ -222,6 +222,24 @@ CHECKS.update({
              "every run terminates."),
 })
 
+CHECKS.update({
+    "C17": dict(
+        technique="TLA+ spec Abc (generations, strict acceptance, tolerance schedules, continue) checked exhaustively by TLC with "
+                  "negative control; recorded ABC sessions validated event by event by TLC (TR_Abc) on cost / tolerance ranks",
+        level="model_checking",
+        text="MC_Abc for rejection, tolerance-list and quantile scheduling incl. continue: AcceptedUnderTol, "
+             "TolerancesNeverIncrease, PosteriorComplete (relaxed acceptance is found by TLC).  Real sessions (SIR, Lotka-Volterra; "
+             "square / normal loss; uniform / gamma / normal priors; log scale; parameter lists ordered unlike the model; an "
+             "initial value as free variable; nearest-neighbour kernels; get + continue) are recorded through a wrapper on "
+             "ABC._perform_generation and accepted only if every particle of every generation is a trial the specification "
+             "accepts (prior positive by the specification's prior table, cost rank strictly below the tolerance rank), has a "
+             "positive finite weight and a stored distance equal to the cost recomputed by a fresh loss object, and the "
+             "posterior after the call is the last generation under the final tolerance.",
+        design="5 C17, 3.10",
+        note="Ranks make every order comparison exact; runs ending in numpy LinAlgError (documented small-N limitation) or "
+             "exceeding 150 s are discarded."),
+})
+
 NOT_APPLICABLE = {
     "C14": "stateless real-valued kernels (log/lgamma): no transitions or histories for a TLA+ model to decide; "
            "the decisive comparison is floating-point agreement with reference densities, a different technique "
